@@ -805,3 +805,88 @@ def gen_analyzer_state():
 
 
 GENERATORS.append(gen_analyzer_state)
+
+
+# ------------------------------------------------------------------ round 4: HOW the fourier filter selects its band / HOW the lagged products are summed
+BAND_FILE, BAND_CLASS, BAND_FN = 'nitime/analysis/spectral.py', 'FilterAnalyzer', 'filtered_fourier'
+SELECT_CALLS = ('searchsorted', 'digitize', 'get_bounds', 'argmax', 'argmin', 'nonzero', 'flatnonzero', 'argwhere', 'isclose', 'allclose',
+                'bisect', 'bisect_left', 'bisect_right', 'floor', 'ceil', 'round', 'rint', 'around')
+CORR_FILE = 'nitime/analysis/correlation.py'
+CORR_CALLS = ('correlate', 'convolve', 'fftconvolve', 'oaconvolve', 'correlate2d', 'convolve2d', 'choose_conv_method', 'correlation_lags',
+              'fft', 'ifft', 'rfft', 'irfft', 'einsum', 'dot', 'tensordot', 'matmul', 'as_strided', 'sliding_window_view')
+
+
+def _module_bindings(tree):
+    """name -> dotted origin for every import of the module (`import numpy as np` -> np: numpy; `from a.b import c as d` -> d: a.b.c)"""
+    out = {}
+    for n in ast.walk(tree):
+        if isinstance(n, ast.Import):
+            for a in n.names:
+                out[a.asname or a.name.split('.')[0]] = a.name if a.asname else a.name.split('.')[0]
+        elif isinstance(n, ast.ImportFrom):
+            for a in n.names:
+                out[a.asname or a.name] = '%s.%s' % (n.module or '.', a.name)
+    return out
+
+
+def _dotted(f, binds):
+    parts = []
+    while isinstance(f, ast.Attribute):
+        parts.append(f.attr)
+        f = f.value
+    if isinstance(f, ast.Name):
+        parts.append(binds.get(f.id, f.id))
+        return '.'.join(reversed(parts))
+    return src_text(f)
+
+
+def gen_band_select():
+    """(a) every comparison and every index-search / rounding call inside FilterAnalyzer.filtered_fourier, in source order, as
+    text: today `freqs < self.lb`, `freqs > self.ub` (strict comparisons NULL a bin: the closed band stays) — a
+    searchsorted(side=…), an isclose, a rounded index re-opens `fourier_band_selection_pinned`;
+    (b) every product-summing call of nitime/analysis/correlation.py (correlate / convolve / fft / dot …) with the module
+    its callee comes from and its keywords: today two `numpy.correlate(…, mode='full')` (the direct sum)."""
+    sel, corr = [], []
+    if os.path.exists(os.path.join(tr.REPO, BAND_FILE)):
+        tree = tr.parse(BAND_FILE)
+        for cls in [n for n in tree.body if isinstance(n, ast.ClassDef) and n.name == BAND_CLASS]:
+            for fn in [n for n in cls.body if isinstance(n, ast.FunctionDef) and n.name == BAND_FN]:
+                nodes = [n for n in ast.walk(fn) if isinstance(n, ast.Compare) or
+                         (isinstance(n, ast.Call) and (n.func.attr if isinstance(n.func, ast.Attribute) else getattr(n.func, 'id', None)) in SELECT_CALLS)]
+                nodes.sort(key=lambda n: (n.lineno, n.col_offset))
+                for n in nodes:
+                    if isinstance(n, ast.Compare) and len(n.ops) == 1 and isinstance(n.ops[0], (ast.Is, ast.IsNot)):
+                        continue      # `self.ub is None`: the default, not a selection
+                    sel.append((' '.join(src_text(n).split()), '%s:%d' % (BAND_FILE, n.lineno)))
+    if os.path.exists(os.path.join(tr.REPO, CORR_FILE)):
+        tree = tr.parse(CORR_FILE)
+        binds = _module_bindings(tree)
+        for cls in [n for n in tree.body if isinstance(n, ast.ClassDef)] + [None]:
+            for fn in [n for n in (cls.body if cls is not None else tree.body) if isinstance(n, ast.FunctionDef)]:
+                calls = [n for n in ast.walk(fn) if isinstance(n, ast.Call)]
+                calls.sort(key=lambda n: (n.lineno, n.col_offset))
+                i = 0
+                for c in calls:
+                    nm = c.func.attr if isinstance(c.func, ast.Attribute) else getattr(c.func, 'id', None)
+                    if nm in CORR_CALLS:
+                        kws = ','.join(sorted('%s=%s' % (k.arg if k.arg else '**', ' '.join(src_text(k.value).split())) for k in c.keywords))
+                        corr.append(('%s%s.%d' % (cls.name + '.' if cls is not None else '', fn.name, i), _dotted(c.func, binds), len(c.args), kws,
+                                     '%s:%d' % (CORR_FILE, c.lineno)))
+                        i += 1
+
+    def q(s):
+        return '"' + s.replace('\\', '\\\\').replace('"', '\\"') + '"'
+    lines = ['-- GENERATED by harness/translate_c15.py: band selection of FilterAnalyzer.filtered_fourier, product sums of correlation.py. DO NOT EDIT.',
+             'namespace Nitime.Generated.BandSelect', '',
+             '/-- comparisons / index searches inside `FilterAnalyzer.filtered_fourier`, source order -/',
+             'def fourierSelectors : List String :=', '  [']
+    lines.append(',\n'.join('   -- %s\n   %s' % (w, q(t)) for t, w in sel))
+    lines += ['  ]', '', '/-- (site, callee with its module, positional arguments, keywords) of every product-summing call in correlation.py -/',
+              'def correlateCalls : List (String × String × Nat × String) :=', '  [']
+    lines.append(',\n'.join('   -- %s\n   (%s, %s, %d, %s)' % (w, q(k), q(f), na_, q(kw)) for k, f, na_, kw, w in corr))
+    lines += ['  ]', '', 'end Nitime.Generated.BandSelect', '']
+    echo = {'fourierSelectors': [t for t, _ in sel], 'correlateCalls': ['%s %s/%d %s' % (k, f, na_, kw) for k, f, na_, kw, _ in corr]}
+    return 'BandSelect.lean', '\n'.join(lines), echo
+
+
+GENERATORS.append(gen_band_select)
